@@ -44,6 +44,12 @@ INSERT INTO s1.accounts (id, name, note) VALUES ($1, $2, $3);
 -- name: RenameArchive :exec
 UPDATE s1.accounts SET name = $1, note = $2 WHERE id = $3;
 
+-- name: Merge :exec
+UPDATE accounts SET age = (SELECT max(total) FROM orders), name = $1 WHERE accounts.id = $2;
+
+-- name: Upsert :exec
+INSERT INTO accounts (id, name) SELECT account_id, name FROM orders ON CONFLICT (id) DO UPDATE SET name = $1;
+
 -- name: Derived :many
 SELECT f.id, f.note FROM (SELECT id, note, age FROM accounts) AS f WHERE f.age > 3;
 
@@ -65,6 +71,9 @@ TRUTH = {
     ("param", "InsertArchive"): [S + ("id",), S + ("name",), S + ("note",)],
     ("param", "RenameArchive"): [S + ("name",), S + ("note",), S + ("id",)],
     # through a sub-select in FROM: the column is still the base table's column, whatever the sub-select is called
+    # an assignment target is a column of the statement's target relation, whatever other relation was mentioned before it
+    ("param", "Merge"): [A + ("name",), A + ("id",)],
+    ("param", "Upsert"): [A + ("name",)],
     ("result", "Derived"): [A + ("id",), A + ("note",)],
     ("result", "Shadow"): [O + ("id",), O + ("name",)],
 }
@@ -95,7 +104,12 @@ def gen_config(rng):
     rename = {}
     if rng.random() < 0.4:
         rename = {rng.choice(["note", "name", "account_id", "total", "s1_mood", "mood", "s1"]): rng.choice(["Memo", "Label", "Owner"])}
-    per_package = rng.random() < 0.3
+    per_package = rng.choice([False, False, False, True, True, "mixed", "mixed"])
+    if per_package == "mixed" and rng.random() < 0.6:
+        # the same database type overridden globally and in the package with the opposite nullability: both must survive
+        dt = rng.choice(["text", "pg_catalog.int4", "uuid"])
+        a, b = {"go_type": rng.choice(GO_TYPES), "db_type": dt}, {"go_type": rng.choice(GO_TYPES), "db_type": dt, "nullable": True}
+        ovs = [a] + ovs[:1] + [b] if rng.random() < 0.5 else [b] + ovs[:1] + [a]
     return ovs, rename, per_package
 
 
@@ -103,7 +117,11 @@ def config_text(ovs, rename, per_package):
     pkg = {"path": "db", "engine": "postgresql", "schema": "schema.sql", "queries": "query.sql", "emit_db_tags": True, "emit_exact_table_names": True,
            "emit_interface": True}
     cfg = {"version": "1", "packages": [pkg]}
-    if per_package:
+    if per_package == "mixed" and len(ovs) > 1:
+        # Combine: the global overrides first, then the package's own
+        k = max(1, len(ovs) // 2)
+        cfg["overrides"], pkg["overrides"] = ovs[:k], ovs[k:]
+    elif per_package:
         pkg["overrides"] = ovs
     elif ovs:
         cfg["overrides"] = ovs
@@ -217,6 +235,13 @@ def run(tier, seed):
             rep.count("generate-rejected")
             continue
         parsed = pc["packages"][0]["overrides"]
+        # what config.Combine hands the generator: every global override, then every override of the package, none dropped
+        # (Props/C16.v C15_C16_combine_local; Model/Config.v combine)
+        key = lambda o: (o.get("db_type", ""), o.get("column", ""), bool(o.get("nullable", False)))
+        if [(o["db_type"], o["column"], bool(o["nullable"])) for o in parsed] != [key(o) for o in ovs]:
+            rep.violation("the overrides config.Combine hands the generator %s are not the global overrides followed by the package's %s"
+                          % ([(o["db_type"], o["column"], o["nullable"]) for o in parsed], [key(o) for o in ovs]), replay)
+            continue
         govs = coqlist([gov_coq(o) for o in parsed])
         for f in fields_of(g["summary"], comp, rename):
             if f[1] is None and f[2] is None:
